@@ -185,3 +185,28 @@ Definition iso_define_by_did (did : Z) (entries : list (Z * Z * Z)) : option iso
            end
          else None
   end.
+
+(* 0x29 Authentication: SF = task 0..8; 0, 8: nothing; 1, 2: U8 communicationConfiguration, L16 certificateClient, L16 challengeClient;
+   3: L16 proofOfOwnershipClient, L16 ephemeralPublicKeyClient; 4: U16 certificateEvaluationId, L16 certificateData;
+   5: U8 communicationConfiguration, 16 bytes algorithmIndicator; 6, 7: 16 bytes algorithmIndicator, L16 proofOfOwnershipClient,
+   L16 challengeClient, L16 additionalParameter.  L16 x = 2-byte length then the bytes (at most 0xFFFF); an absent optional byte
+   string is sent with length 0. *)
+Definition iso_l16 (o : option bytes) : option bytes :=
+  match o with
+  | Some b => if Z.of_nat (List.length b) <=? 65535 then Some (u16 (Z.of_nat (List.length b)) ++ b) else None
+  | None => Some [0; 0]
+  end.
+Definition iso_raw16 (o : option bytes) : option bytes :=
+  match o with Some b => if Nat.eqb (List.length b) 16 then Some b else None | None => None end.
+Definition iso_authentication (task : Z) (cfg : option Z) (cert chal algo : option bytes) (evalid : option Z)
+           (certdata pown eph add : option bytes) : option iso_req :=
+  if in_u task 8 then
+    let params :=
+      if (task =? 0) || (task =? 8) then Some []
+      else if (task =? 1) || (task =? 2) then iso_cat [iso_opt cfg 255 1; iso_l16 cert; iso_l16 chal]
+      else if task =? 5 then iso_cat [iso_opt cfg 255 1; iso_raw16 algo]
+      else if task =? 3 then iso_cat [iso_l16 pown; iso_l16 eph]
+      else if task =? 4 then iso_cat [iso_opt evalid 65535 2; iso_l16 certdata]
+      else iso_cat [iso_raw16 algo; iso_l16 pown; iso_l16 chal; iso_l16 add] in
+    match params with Some d => ireq "Authentication" (Some task) d | None => None end
+  else None.
